@@ -28,7 +28,7 @@ for f in sorted(glob.glob("/verif/replays/%s_*.json" % pid)):
     ks = kinds(spec, []) if spec else []
     if "failures" in d and d["failures"]:
         x = d["failures"][0]
-        key = ("oracle", x["clause"][:60], str(x.get("diff"))[:70])
+        key = ("oracle", x["clause"][:60], (ks[0] if ks else "") + " " + (str(x.get("diff"))[:70] if len(sys.argv) < 3 else ""))
     elif "correspondence" in d:
         cc = d["correspondence"]
         op = d["ops"][cc["op"]] if cc.get("op", 10 ** 9) < len(d["ops"]) else ["?"]
